@@ -378,7 +378,7 @@ Lemma minp_of_default ts : minp_of None None ts = 1%Z.
 Proof. reflexivity. Qed.
 Lemma minp_of_min_period mp ts :
   (2 <= length ts)%nat -> time_interval ts <> 0%Z ->
-  minp_of None (Some mp) ts = Z.quot mp (time_interval ts).
+  minp_of None (Some mp) ts = Z.quot (mp * NS) (time_interval ts).
 Proof.
   intros H1 H2. unfold minp_of, min_periods.
   destruct (Nat.leb_spec (length ts) 1); [lia|].
